@@ -106,7 +106,7 @@ def addGlueR (st : Static) (g : GState) (gone : List Mod) : GState :=
     let g0 := { g with present := g.present.filter (fun m => !gone.contains m) }
     let g' := names.foldl (visitR st) g0
     let complete := names.all (fun m => g0.present.contains m)
-    { g' with cache := if complete then names.length else g'.cache, log := g'.log ++ [.returned] }
+    { g' with cache := if complete then names.length else 0, log := g'.log ++ [.returned] }      -- 0: never the size of the real sys.modules
 
 /-- What the code did before the repair: a vanished module still had its built-in glue popped and run
 (`module_fn` is None after the KeyError), and the cache was updated regardless. -/
